@@ -48,6 +48,7 @@ package account
 //@   objinv ctrler != nil && ctrler.acctLedger != nil
 //@   assumes amounts_fit(ctx)
 //@   requires wf_ctx(ctx)
+//@   assumes noalias(ctx)
 //@   modifies u(ctx.Sender.Balance), u(ctx.Receiver.Balance), ctx.Sender.Name, ctx.Sender.DocURL, allmaps(memItems.gotItems)
 //@   ensures result != nil ==> u(ctx.Sender.Balance) == old(u(ctx.Sender.Balance)) && u(ctx.Receiver.Balance) == old(u(ctx.Receiver.Balance))   [C05]
 //@   ensures result == nil ==> u(ctx.Sender.Balance) >= old(u(ctx.Sender.Balance)) - u(ctx.Tx.Amount)                  [C16]
